@@ -8,6 +8,7 @@ import (
 	"go/types"
 	"sort"
 	"strings"
+	"sync"
 )
 
 // Sorts used:
@@ -27,12 +28,14 @@ type Decls struct {
 	anon     map[string]string        // struct string -> sort name
 	lits     map[string]string        // string literal -> const name
 	litOrder []string
+	litMu    sync.Mutex
+	ground   map[string]func(string) string // symbol of a library string function -> the function, for ground facts over the literals
 	tags     map[string]int // concrete type name -> iface tag
 	tagOrder []string
 }
 
 func newDecls() *Decls {
-	d := &Decls{seen: map[string]bool{}, structs: map[string]*types.Struct{}, anon: map[string]string{}, lits: map[string]string{}, tags: map[string]int{}}
+	d := &Decls{seen: map[string]bool{}, structs: map[string]*types.Struct{}, anon: map[string]string{}, lits: map[string]string{}, tags: map[string]int{}, ground: map[string]func(string) string{}}
 	d.pre = append(d.pre,
 		"(declare-sort Str 0)",
 		"(declare-sort Ref 0)",
@@ -218,6 +221,12 @@ func (d *Decls) slIdx(s, i string) string {
 }
 
 func (d *Decls) strLit(s string) string {
+	d.litMu.Lock()
+	defer d.litMu.Unlock()
+	return d.strLitLocked(s)
+}
+
+func (d *Decls) strLitLocked(s string) string {
 	if n, ok := d.lits[s]; ok {
 		return n
 	}
@@ -232,8 +241,20 @@ func (d *Decls) strLit(s string) string {
 
 // literal axioms: lengths, bytes (first 48 bytes), pairwise distinct
 func (d *Decls) litDecls() []string {
+	d.litMu.Lock() // queries of one function are built concurrently; the closure below may add literals
+	defer d.litMu.Unlock()
 	var out []string
 	var names []string
+	gsyms := make([]string, 0, len(d.ground))
+	for sym := range d.ground {
+		gsyms = append(gsyms, sym)
+	}
+	sort.Strings(gsyms)
+	for i := 0; i < len(d.litOrder); i++ { // the images are literals too (the loop sees the ones it adds)
+		for _, sym := range gsyms {
+			d.strLitLocked(d.ground[sym](d.litOrder[i]))
+		}
+	}
 	for _, s := range d.litOrder {
 		n := d.lits[s]
 		names = append(names, n)
@@ -245,6 +266,11 @@ func (d *Decls) litDecls() []string {
 	}
 	if len(names) > 1 {
 		out = append(out, "(assert (distinct "+strings.Join(names, " ")+"))")
+	}
+	for _, sym := range gsyms {
+		for _, s := range d.litOrder {
+			out = append(out, fmt.Sprintf("(assert (= (%s %s) %s))", sym, d.lits[s], d.lits[d.ground[sym](s)]))
+		}
 	}
 	return out
 }
